@@ -26,6 +26,9 @@ func checkC11(c *Ctx) {
 	c.useRules(ruleP11, ruleP2, ruleP8, ruleP6, ruleP5)
 	c.useRules(ruleP6)
 	c.connackCodeReachesAccept()
+	// what a session keeps of a CONNECT is its own copy: the bytes of a later, refused connection cannot show in it
+	c.useRules(ruleT5)
+	c.sessionConnectAndWill()
 	c.sessionSetupRefusesNothing()
 	r := c.Roles()
 	if !c.Need("accept function (Server method calling Authenticate)", r.Accept, "start", r.Start, "socket writer", r.SockWrite) {
